@@ -9,6 +9,7 @@ pub mod monitors;
 pub mod receiver;
 pub mod stream;
 pub mod c04_shell;
+pub mod c05_shell;
 pub mod c06_shell;
 pub mod classic_ref;
 
